@@ -137,6 +137,8 @@ pub enum Op {
     CompactDist { o: COpt, pick: Vec<u8> },
     CreateIndexK,
     Optimize,
+    /// apply a pending deferred index remap through `remapping::remap_column_index`
+    RemapIndexK,
     Restore { v: u64 },
     TagCreate { t: u8, v: u64 },
     TagUpdate { t: u8, v: u64 },
@@ -164,6 +166,7 @@ impl Op {
             Op::CompactDist { .. } => "compact_dist",
             Op::CreateIndexK => "create_index",
             Op::Optimize => "optimize",
+            Op::RemapIndexK => "remap_index",
             Op::Restore { .. } => "restore",
             Op::TagCreate { .. } => "tag_create",
             Op::TagUpdate { .. } => "tag_update",
@@ -654,6 +657,7 @@ impl Hist {
             | Op::CompactDist { .. }
             | Op::CreateIndexK
             | Op::Optimize
+            | Op::RemapIndexK
             | Op::TagCreate { .. }
             | Op::TagUpdate { .. }
             | Op::TagDelete { .. }
@@ -710,6 +714,7 @@ impl Hist {
                         if (*back as u64) >= st.latest
                             || !st.vers.get(&(st.latest - *back as u64)).map(|r| r.exists && r.model.is_some()).unwrap_or(false) => {}
                     Op::Optimize if !indexed => {}
+                    Op::RemapIndexK if !indexed || !st.deferred_pending => {}
                     Op::Compact { o } if o.defer && !indexed => {}
                     Op::TagDelete { t } if !st.tags.contains_key(t) => {}
                     _ => out.push(op.clone()),
@@ -887,6 +892,11 @@ impl Hist {
             Op::Optimize => {
                 let mut ds = env.open(URI).await?;
                 ds.optimize_indices(&OptimizeOptions::default()).await?;
+                Ok("ok".into())
+            }
+            Op::RemapIndexK => {
+                let mut ds = env.open(URI).await?;
+                lance::dataset::optimize::remapping::remap_column_index(&mut ds, &["k"], Some("k_idx".into())).await?;
                 Ok("ok".into())
             }
             Op::Restore { v } => {
@@ -1331,9 +1341,15 @@ impl Hist {
             self.count("compaction.nothing_committed", 1);
         }
         if matches!(op, Op::Compact { o } | Op::CompactDist { o, .. } if o.defer) && committed {
-            n.deferred_pending = true;
+            // pending only if the compaction really recorded a fragment reuse index (it does not
+            // for tables with stable row ids, where nothing needs remapping)
+            let recorded = n.vers[&new_latest]
+                .summary
+                .as_ref()
+                .map(|s| s.indices.iter().any(|i| i.0 == "__lance_frag_reuse"));
+            n.deferred_pending = recorded.unwrap_or(true);
         }
-        if matches!(op, Op::Optimize) && committed {
+        if matches!(op, Op::Optimize | Op::RemapIndexK) && committed {
             n.deferred_pending = false;
         }
 
@@ -1738,9 +1754,10 @@ fn task_picks(n: u8) -> Vec<Vec<u8>> {
 fn remap_shape(op: &Op, st: &HState) -> String {
     let defer = matches!(op, Op::Compact { o } | Op::CompactDist { o, .. } if o.defer);
     format!(
-        "{}/{}",
+        "{}/{}{}",
         if st.stable { "stable-ids" } else { "addr-ids" },
-        if defer { "remap-deferred" } else { "remap-now" }
+        if defer { "remap-deferred" } else { "remap-now" },
+        if st.deferred_pending { "/while-deferred-remap-pending" } else { "" }
     )
 }
 
